@@ -10,8 +10,10 @@ ROOT = os.path.dirname(os.path.dirname(os.path.abspath(__file__)))
 CLAIMED = ["C%02d" % i for i in range(1, 21)]
 
 T = {
- "C01": ("RVOLE algebra c+d=a*b proved in Coq for all oracles/inputs/tapes over Z mod q (both variants); composed executable model run "
-         "against the real protocol with real merlin/k256 behind the oracles.",
+ "C01": ("RVOLE algebra c+d=a*b proved in Coq for all oracles/inputs/tapes over Z mod q (both variants), and composed end to end with the "
+         "Endemic base-OT, PPRF and SoftSpoken models (rvole_real_pipeline_correct: real-pipeline seeds, all tapes of all four stages); the "
+         "composed executable model is run against the real protocol with real merlin/k256 behind the oracles (incl. boundary scalars, "
+         "reused output buffers, both seed provenances).",
          "Coq proof (ring algebra over Z_q, any hash oracle) + extracted-model correspondence"),
  "C02": ("Acceptance of honest messages, unconditional rejection of digest changes, selective-failure characterisation of the "
          "calibrated sender, proved in Coq; security-flavoured sentences as 'accept => explicit oracle coincidence'; fault "
@@ -23,7 +25,9 @@ T = {
  "C04": ("Honest acceptance, rejection of t/x corruptions, selective-failure iff for the calibrated receiver; exhaustive bit sweep of "
          "the first-round message against the real sender as supporting enumeration.",
          "Coq proof + model-level adversary + fault enumeration"),
- "C05": ("Endemic OT over an abstract group: chosen key equal for all oracles/tapes; session binding via query injectivity.",
+ "C05": ("Endemic OT over an abstract group: chosen key equal for all oracles/tapes; other key / cross-session equality => explicit oracle "
+         "coincidence; session binding via query injectivity; run against the real code incl. degenerate tapes (which found and led to the "
+         "repair of F9: zero ephemeral scalars).",
          "Coq proof over an abstract Z_q-module + extracted-model correspondence with real k256/merlin"),
  "C06": ("GGM tree build/eval for any depth: 15 leaves equal, punctured slot zero, digest tamper rejected, unused-side tamper harmless.",
          "Coq proof by induction on tree depth + extracted-model correspondence"),
@@ -32,13 +36,16 @@ T = {
          "Coq proof (number theory over Z) + in-Coq evaluation of the model against the real crate"),
  "C08": ("add/mul closed forms mod N^2, homomorphism mod N including wrap-around, mul_vartime = mul.",
          "Coq proof + in-Coq evaluation of the model against the real crate"),
- "C09": ("Cut-and-choose proof, BigUint codecs and wire format modelled; honest proofs verify and decrypt for every tape; codec round trips.",
+ "C09": ("Cut-and-choose proof, BigUint codecs and wire format modelled; honest proofs verify and decrypt for every tape; codec round trips; "
+         "security parameter modelled at usize width (refused outside 128..=256 for every value up to 2^64-1).",
          "Coq proof with RSA/SHA/group as section hypotheses + extracted-model correspondence"),
  "C10": ("Per-slot rejections, decrypt soundness, accept => recover or all unopened sides bad (one oracle point).",
          "Coq proof + model-level adversarial provers + byte-level fault enumeration"),
- "C11": ("Outcome-valued models with an explicit Panic at every indexing/unwrap/assert/expect site; totality (no Panic) proved for all "
-         "byte strings for the header/relay-frame entry points here and in the area models; every entry point of the four crates is "
-         "fed structured byte strings under catch_unwind and any real panic is reported with its input.",
+ "C11": ("Outcome-valued models with an explicit Panic at every indexing/unwrap/assert/expect site; 40 totality theorems (no Panic for ALL "
+         "byte strings / message contents / histories): proof wire format from_bytes -> verify -> decrypt -> to_bytes, BIP32 derive_xpub and "
+         "to_string for every root and path, relay frame classification and the relay with an explicit poisonable lock over all histories, "
+         "Paillier key deserialisation, every process function of base OT / PPRF / OT extension / RVOLE; every entry point of the four crates "
+         "is fed structured byte strings under catch_unwind (overflow checks on) and any real panic is reported with its input.",
          "Coq totality proofs + outcome-class differential fuzzing under catch_unwind"),
  "C12": ("Path walk, bookkeeping, 78-byte layout and Base58Check modelled; fields equal the BIP32 spec; child = parent + offset*G; "
          "additivity; error cases; no panic.",
